@@ -2,7 +2,9 @@ import re
 
 from . import operator, xlerrors, func_xltypes
 
-CRITERIA_REGEX = r'(\W*)(.*)'
+# An optional comparison operator, followed by the operand (which may start
+# with a sign: '<-1').
+CRITERIA_REGEX = r'(<=|>=|<>|<|>|=)?(.*)'
 
 CRITERIA_OPERATORS = {
     '<': operator.OP_LT,
